@@ -396,6 +396,54 @@ func c11All(env *core.Env, c0 *rulesCase) core.Verdict {
 	return v
 }
 
+// c11Subdir: update --all over two rules files whose assembly files are not adjacent in the walk (one lies in a
+// subdirectory of the assembly directory, so the walk comes back to the first rules file after the second one).
+func c11Subdir(env *core.Env, c *rulesCase) core.Verdict {
+	root := emptyRoot(env)
+	defer rmCase(root)
+	rule := func(id, op string) string {
+		return "SecRule ARGS \"@rx " + op + "\" \\\n    \"id:" + id + ",\\\n    phase:2,\\\n    deny\"\n"
+	}
+	a := "# first rules file\n" + rule("932100", "old1") + "\n" + rule("932200", "old2") + rule("932300", "old3")
+	b := "# second rules file\n" + rule("933100", "oldb")
+	srcs := map[string]string{"932100": "homer\nmarge\n", "933100": "bart\n", "932200": "lisa\nmaggie\n", "932300": c.Sources[c.Target]}
+	if srcs["932300"] == "" {
+		srcs["932300"] = "burns\n"
+	}
+	sub := []string{"extra", "zz-late", "0-early"}[len(srcs["932300"])%3]
+	tree := sut.Tree{"regex-assembly/toolchain.yaml": crsToolchainYAML, "rules/REQUEST-932-APPLICATION-ATTACK-RCE.conf": a, "rules/REQUEST-933-APPLICATION-ATTACK-PHP.conf": b,
+		"regex-assembly/932100.ra": srcs["932100"], "regex-assembly/933100.ra": srcs["933100"], "regex-assembly/" + sub + "/932200.ra": srcs["932200"], "regex-assembly/" + sub + "/deeper/932300.ra": srcs["932300"]}
+	if err := tree.Write(root); err != nil {
+		return core.Incon("cannot write tree: %v", err)
+	}
+	want := map[string]string{}
+	for id, src := range srcs {
+		g := cli(env, root, []byte(src), "regex", "generate", "-")
+		if g.Exit != 0 {
+			return core.Verdict{Status: core.Skipped, Msg: "a source does not compile"}
+		}
+		want[id] = string(g.Stdout)
+	}
+	u := cli(env, root, nil, "regex", "update", "--all")
+	if u.Class() == sut.ClassTimeout {
+		return core.Incon("watchdog hit, not judged: %s", describe(u))
+	}
+	if u.Exit != 0 {
+		return core.Viol("update-all-fails", "update --all failed on a tree with an assembly file in a subdirectory: %s", describe(u))
+	}
+	wa := strings.NewReplacer("@rx old1\"", "@rx "+want["932100"]+"\"", "@rx old2\"", "@rx "+want["932200"]+"\"", "@rx old3\"", "@rx "+want["932300"]+"\"").Replace(a)
+	wb := strings.Replace(b, "@rx oldb\"", "@rx "+want["933100"]+"\"", 1)
+	ga, _ := sut.Read(root, "rules/REQUEST-932-APPLICATION-ATTACK-RCE.conf")
+	gb, _ := sut.Read(root, "rules/REQUEST-933-APPLICATION-ATTACK-PHP.conf")
+	if ga != wa {
+		return core.Viol("wrong-bytes:all-subdir", "update --all (assembly files 932100.ra, 933100.ra, %s/932200.ra, %s/deeper/932300.ra) did not leave the first rules file with exactly its three operands replaced\n%s", sub, sub, firstDiff(ga, wa))
+	}
+	if gb != wb {
+		return core.Viol("wrong-bytes:all-subdir", "update --all did not leave the second rules file with exactly its operand replaced\n%s", firstDiff(gb, wb))
+	}
+	return core.Verdict{Status: core.Held, Nontrivial: true, Features: []string{"lane:all-subdir"}, Counts: map[string]int{"operands_rewritten": 4}}
+}
+
 func c11Check(env *core.Env, cc core.Case) core.Verdict {
 	c := cc.(*rulesCase)
 	if c.IO != nil {
@@ -403,6 +451,9 @@ func c11Check(env *core.Env, cc core.Case) core.Verdict {
 	}
 	if c.Lane == "all" || c.Lane == "all-stash" {
 		return c11All(env, c)
+	}
+	if c.Lane == "all-subdir" {
+		return c11Subdir(env, c)
 	}
 	root := emptyRoot(env)
 	defer rmCase(root)
@@ -617,6 +668,22 @@ func c12Check(env *core.Env, cc core.Case) core.Verdict {
 				}
 			}
 			v.Counts["edits_detected"] = 1
+			// a commented-out copy of the edited line right above the rule, then update: the rule gets the generated
+			// operand back and the comment stays what it is (a text search for the line finds the comment first)
+			if c.TargetK == 0 && len(mutated) == len(regex) {
+				l2 := append(append(append([]string{}, l1[:pos[key]]...), "#"+l1[pos[key]]), l1[pos[key]:]...)
+				if err := (sut.Tree{rulesPath: strings.Join(l2, "\n")}).Write(root); err != nil {
+					return core.Incon("cannot write: %v", err)
+				}
+				u3 := cli(env, root, nil, "regex", "update", c.Target)
+				got, _ := sut.Read(root, rulesPath)
+				f1 := strings.Split(file1, "\n")
+				wantLines := append(append(append([]string{}, f1[:pos[key]]...), "#"+l1[pos[key]]), f1[pos[key]:]...)
+				if u3.Exit != 0 || got != strings.Join(wantLines, "\n") {
+					return core.Viol("update-after-edit", "update (exit %d) does not restore the operand of a rule whose stored operand was edited by one byte and whose old line is kept as a comment above it\n%s", u3.Exit, firstDiff(got, strings.Join(wantLines, "\n")))
+				}
+				v.Counts["restored_after_edit"] = 1
+			}
 		}
 	}
 	v.Nontrivial = true
@@ -768,6 +835,9 @@ func init() {
 				c.Sources = keep
 				if i%8 == 7 {
 					c.Lane = "all-stash"
+				}
+				if i%8 == 3 && i < 120 {
+					c.Lane = "all-subdir"
 				}
 				cs = append(cs, c)
 			}
